@@ -1,5 +1,5 @@
 (* C06 - ExtractLicenses returns exactly the distinct terms of the expression. *)
-From Spdx Require Import Props.Shipped Spec.Eval Proofs.ApiFacts Proofs.Laws Proofs.MatchProof Proofs.Sat.
+From Spdx Require Import Props.Shipped Spec.Eval Spec.Units WF.Units Proofs.ApiFacts Proofs.Laws Proofs.MatchProof Proofs.Sat Proofs.RoundTrip Proofs.BytesFacts.
 Local Open Scope list_scope.
 
 (* without duplicates, precisely the canonical spellings of the leaves: none missing, none invented *)
@@ -26,11 +26,56 @@ Proof.
   apply H. auto.
 Qed.
 
+(* every returned string is itself a valid single-term expression: it parses back to the very term it was printed
+   from, and extracts to itself *)
+Theorem C06_round_trip s t n : parse T0 s = Ok t -> In n (tree_leaves t) ->
+  parse T0 (canon_str n) = Ok n /\ extract_licenses T0 (canon_str n) = Ok [canon_str n].
+Proof.
+  intros H Hn.
+  exact (extracted_terms_round_trip T0 HT0 chk_no_keyword_prefix_shipped chk_case_safe_shipped chk_fold_unique_shipped
+           chk_deprec_no_orlater_shipped s t H n Hn).
+Qed.
+
+Lemma tree_leaves_nonempty t : tree_leaves t <> [].
+Proof.
+  induction t as [l p e|d r|a IHa b IHb|a IHa b IHb]; simpl; try discriminate;
+    intros H; apply app_eq_nil in H; destruct H as [H _]; contradiction.
+Qed.
+
+(* using the returned list as the allowed list always satisfies the expression *)
+Theorem C06_extracted_list_satisfies e t l : parse T0 e = Ok t -> extract_licenses T0 e = Ok l -> satisfies T0 e l = Ok true.
+Proof.
+  intros HP HE. destruct (extract_exact T0 HT0 e t HP) as [l' [HE' [_ Hin]]]. rewrite HE in HE'. inversion HE'; subst l'. clear HE'.
+  assert (Hleaf : forall n, In n (tree_leaves t) -> parse T0 (canon_str n) = Ok n /\ is_leaf n = true).
+  { intros n Hn. destruct (C06_round_trip e t n HP Hn) as [P _]. split; [assumption|].
+    pose proof (tree_ok_leaves T0 t (parse_tree_ok T0 HT0 e t HP) n Hn) as L. destruct n; try contradiction; reflexivity. }
+  assert (Hne : l <> []).
+  { destruct (tree_leaves t) as [|n0 ls] eqn:EL.
+    - exfalso. exact (tree_leaves_nonempty t EL).
+    - intros ->. apply (proj2 (Hin (canon_str n0))). apply in_map. left. reflexivity. }
+  assert (HF : Forall (entry_ok T0) l).
+  { apply Forall_forall. intros x Hx. apply Hin in Hx. apply in_map_iff in Hx. destruct Hx as [n [<- Hn]].
+    destruct (Hleaf n Hn) as [P L]. exists n. auto. }
+  rewrite (satisfies_closed T0 HT0 Hnr0 e t l HP Hne HF). f_equal.
+  assert (K : forall A, (forall n, In n (tree_leaves t) -> In n A) -> eval (fun x => existsb (compatible T0 x) A) t = true).
+  { pose proof (parse_tree_ok T0 HT0 e t HP) as Hok. clear -Hok.
+    induction t as [l0 p e0|d r|a IHa b IHb|a IHa b IHb]; intros A HA.
+    - simpl. apply existsb_exists. exists (NLic l0 p e0). split; [apply HA; left; reflexivity|].
+      apply (compatible_refl T0 chk_fold_unique_shipped chk_orlater_base_ranged_shipped). exact Hok.
+    - simpl. apply existsb_exists. exists (NRef d r). split; [apply HA; left; reflexivity|].
+      apply (compatible_refl T0 chk_fold_unique_shipped chk_orlater_base_ranged_shipped). exact Hok.
+    - destruct Hok as [Ha Hb]. simpl. rewrite IHa, IHb; auto; intros x Hx; apply HA; simpl; apply in_or_app; auto.
+    - destruct Hok as [Ha Hb]. simpl. rewrite IHa; auto; intros x Hx; apply HA; simpl; apply in_or_app; auto. }
+  apply K. intros n Hn. apply in_map_iff. exists (canon_str n). split.
+  - unfold pn. destruct (Hleaf n Hn) as [P _]. rewrite P. reflexivity.
+  - apply Hin. apply in_map. assumption.
+Qed.
+
 Example C06_example :
   extract_licenses T0 (s2l "(mit AND GPL-2.0+) OR (MIT AND LicenseRef-x) OR gpl-2.0-or-later WITH bison-exception-2.2")
   = Ok [s2l "MIT"; s2l "GPL-2.0-or-later+"; s2l "LicenseRef-x"; s2l "GPL-2.0-or-later+ WITH Bison-exception-2.2"].
 Proof. vm_compute. reflexivity. Qed.
 
 (* axioms the property theorems of this file depend on (one traversal for all of them) *)
-Definition C06_theorems := (@C06_exact, @C06_canon_injective, @C06_leaves_satisfy).
+Definition C06_theorems := (@C06_exact, @C06_canon_injective, @C06_leaves_satisfy, @C06_round_trip, @C06_extracted_list_satisfies).
 Redirect "assumptions/C06" Print Assumptions C06_theorems.
